@@ -22,6 +22,35 @@ P = {
    text="The child table is touched only by add_child / register_child / send_to_children and the constructor, never emptied, and owned by the loop future through the Context; what is stored is a strong Sender<M> under TypeId::of::<M>, looked up and downcast alike; one force_send(clone) per matching child, failures do not end the broadcast.", ref="§6 C16"),
 }
 
+
+P.update({
+ "C06": dict(tech="static analysis: ownership of the loop future + CFG trace conformance over return/unwind/cancel edges + who-may-call census of timer registration and abort",
+   text="Everything others may wait on (receiver, context with timers and children, stop notifier) is owned by the loop future, so every exit releases it; failure paths run no further callback and never announce graceful termination; Context::drop aborts every timer handle and all timers are registered abortable through one function; the child table lives in the Context only; joins map failures to None without panicking extractors; the crate's only statics are the id counter and the registry. What a runtime does with a panicking task beyond its documented join result is not decided.", ref="§6 C06"),
+ "C07": dict(tech="static analysis: marker-flow provenance + CFG trace conformance of the loop and of the three refresh strategies + builder type-state (signatures and generic-argument agreement)",
+   text="Restart markers go through the forcing closure of the one queue; the loop hands the current actor and its own context to RestartStrategy::refresh, assigns the result to its actor place, fails on its error and otherwise continues with the same receiver, context and notifier; the strategies follow stopped → (Default) → started and abort the previous incarnation's timers in between on all paths; the builder's type-state selects the strategy that the terminals instantiate. 'Behaves like a freshly started actor' beyond callbacks, value and timers is not decided.", ref="§6 C07"),
+ "C08": dict(tech="static analysis: static-reference census + lock-scope conformance on all CFG paths (with a must-moved analysis for guard drops) + polarity of liveness decisions",
+   text="The registry static is referenced only by the registry operations; each holds one guard across all its map operations, its liveness decision and (spawn-on-demand) spawn, detach and insert, mutating ones a write guard; register inserts only when no live instance is registered and otherwise fails without touching the map; replace/unregister return what the map returned; lookups hand out entries only behind the running filter; the spawned instance returned is the one inserted; already_running has running polarity. Linearizability as such is not decided (follows from these scopes plus the trusted RwLock).", ref="§6 C08"),
+ "C09": dict(tech="static analysis: ownership graph of the broker state + key/value provenance of the subscriber table + CFG trace conformance of the fan-out + call-graph census of publish/subscribe entry points",
+   text="The table holds weak senders keyed by the carried sender's own id (ids minted only by the atomic counter); per publication the live entries are upgraded once and each receives exactly one awaited send of a clone of the publication, failures do not end the fan-out; every entry point ends in Addr::send to the registry's broker actor, so its single mailbox orders everything. Progress against a full bounded subscriber mailbox is not decided.", ref="§6 C09"),
+ "C10": dict(tech="static analysis: CFG trace conformance of the four timer coroutines + duration provenance into each runtime's sleep (3 configurations) + ownership at sleep suspension points",
+   text="interval/interval_with fire only after a completed sleep since the previous firing and end on a failed submit; delayed_* sleep once and fire once; the Duration reaches the runtime's sleep unmodified on tokio, smol and async-std; timers are registered abortable, aborted with the context, submit through a weak sender of their own context and hold nothing strong while sleeping. Measured tick counts and spacing are not decided (no clock is run; they follow from these rules plus the trusted sleep).", ref="§6 C10"),
+ "C11": dict(tech="static analysis: configuration-flow provenance (setters, terminals, loop captures) + CFG trace conformance of the timeout wrapper and of the loop's reaction",
+   text="Setters store the limit / flag unmodified on all paths; terminals run the loop of the environment configured with the builder's config; every Task's future goes to the wrapper with config.timeout; the wrapper arms Delay with exactly that limit only on the Some edge, races exactly the handler future against it, maps the timer arm to Err(Timeout) and the other to the handler's completion, and awaits the future alone when no timeout is configured; on Err the loop fails without stopped()/announcement iff fail_on_timeout, else continues with the next message. The timing boundary itself is not decided.", ref="§6 C11"),
+ "C12": dict(tech="static analysis: call-graph classification of submit paths through the dyn table + provenance of the capacity + shape of the waiting/forcing closures",
+   text="Decides the wiring necessary for the bound: send-style APIs reach only the waiting closure, non-waiting ones only the forcing closure; the bounded waiting path awaits SinkExt::send (feed+flush) on a fresh clone of the Sender of mpsc::channel(capacity) with the capacity unmodified from builder to channel; forcing closures are synchronous non-waiting enqueues without blocking primitives; stop/restart entry points are synchronous. The counting inequality and eventual return of a parked send live inside futures-channel and are not decided.", ref="§6 C12"),
+ "C13": dict(tech="static analysis: CFG trace conformance of the stream loop + provenance of selected items + structure of the select (which futures are raced, fairness)",
+   text="All paths of the stream loop follow the incarnation protocol with finished→stopped exactly once on Stop, closed mailbox, exhausted stream and `complete`; every selected item / task is dispatched exactly once and completed before the next select; handlers are call sites of the loop itself while the select races only the two next() futures; the select is fair (shuffled) or mailbox-first; stream and mailbox are owned by the loop future. Cancel-safety of Next is trusted.", ref="§6 C13"),
+ "C14": dict(tech="static analysis: polarity abstract interpretation of the liveness queries + who-may-call census of Shared::peek / polls of the termination future",
+   text="Each liveness query polls a clone of its own handle's shared termination future (not peek) and reports the right polarity; nobody else turns that future into a boolean; the registry operations consult the queries. A thread race inside Shared::poll is primitive behaviour and not decided.", ref="§6 C14"),
+ "C17": dict(tech="static analysis: CFG trace conformance + provenance of the loops' result and of each runtime's join closure (3 configurations) + forwarding checks of the OwningAddr API",
+   text="The loop returns its own actor place only after the completed stopped() and the announcement; on tokio, smol and async-std the join takes the runtime handle out of its slot under the lock, awaits exactly that handle and flattens failures to None without panicking; join/consume/consume_sync/detach/to_addr forward to the handle / address they own, consume* stop first.", ref="§6 C17"),
+ "C18": dict(tech="static analysis: must-consume rule on elaborated-drop MIR + per-runtime sibling cross-check from a table of task-handle drop semantics + MIR digest equality of runtime-independent code across configurations",
+   text="No spawn entry point (nor any other function) drops a freshly obtained ActorHandle/OwningAddr on a normal path; where dropping the runtime's handle cancels (smol) a detach function is registered that takes and detaches it, ActorHandle::detach invokes it and spawn_future detaches; the default spawner resolves per configuration; all runtime-independent functions are the same program in the three configurations. Behavioural equivalence of the three external executors themselves is not decided.", ref="§6 C18"),
+ "C19": dict(tech="static analysis: compile-fail witnesses with compiling twins judged by rustc's JSON diagnostics (type-level encoding)", cat="proof", engine="witness",
+   text="Each (rule, entry point) cell of the catalogue is an obligation discharged by the compiler: the ill-typed program is rejected with the expected error code on the marked line and no other error, and its twin — identical but for that line — compiles. 56 cells, 112 programs.", ref="§6 C19",
+   note="Trusted: rustc's type checker and trait solver on the repository's stable toolchain; cargo resolving the path dependency on /repo with /repo's Cargo.lock."),
+})
+
 NA_PENDING = {}
 
 def main():
@@ -57,7 +86,7 @@ def main():
             "add_only": True,
         },
         "engines": [
-            {"name": "hfacts", "path": "hfacts/", "serves_properties": [c["property_id"] for c in checks], "kind_free_text": "rustc_private fact extractor: pre/post MIR, dyn table, ownership closure, coroutine layouts"},
+            {"name": "hfacts", "path": "hfacts/", "serves_properties": [c["property_id"] for c in checks if c["engine"] == "rules"], "kind_free_text": "rustc_private fact extractor: pre/post MIR, dyn table, ownership closure, coroutine layouts"},
             {"name": "rules", "path": "rules/", "serves_properties": [c["property_id"] for c in checks if c["engine"] == "rules"], "kind_free_text": "Python rule kernel: trace conformance, ownership, provenance, census, lock scope, must-consume, sibling cross-check"},
         ],
         "checks": checks,
